@@ -6,9 +6,11 @@ mod av;
 mod conc;
 mod cost;
 mod payload;
+mod registry;
 mod sources;
 mod stream;
 mod total;
+mod uri;
 mod wire;
 mod wirecases;
 
@@ -96,6 +98,8 @@ fn main() {
         "total" => total::run(&args),
         "stream" => stream::run(&args),
         "payload" => payload::run(&args),
+        "registry" => registry::run(&args),
+        "uri" => uri::run(&args),
         "cost" => cost::run(&args),
         "cost-child" => cost::cost_child(&args),
         "bomb-child" => total::bomb_child(&args),
